@@ -390,11 +390,129 @@ def execute_pkg(plan):
     return out
 
 
+# ---------------------------------------------------------------------------
+# stratum: a load started while another load is inside a fragment
+
+NEST_SCHEMA = """<schema>
+  <sectiontype name="st">
+    <multikey name="k" datatype="string"/>
+  </sectiontype>
+  <sectiontype name="zznest">
+    <key name="nk" datatype="zcsim.simdt.nested"/>
+  </sectiontype>
+  <multikey name="k" datatype="string"/>
+  <multisection type="st" name="*" attribute="s"/>
+  <multisection type="zznest" name="*" attribute="n"/>
+</schema>
+"""
+
+
+def generate_nested(rng):
+    """Two top resources that share fragments.  A section in one fragment has
+    a datatype of the application that loads the OTHER top resource (with a
+    loader of its own) while the first load is still inside that fragment:
+    each load gives what it gives on its own -- an %include is refused as
+    recursive only when it is recursive in ITS load."""
+    base = rng.choice(["file:///sim/n/", "http://sim.test/n/"])
+    f2 = base + "sub/f2.conf"
+    f1 = base + "f1.conf"
+    t1, t2 = base + "t1.conf", base + "t2.conf"
+    deep = rng.random() < 0.5
+    nest = ["<zznest x>", "nk go", "</zznest>"]
+    store = {
+        f2: "k f2\n" + ("\n".join(nest) + "\n" if deep else ""),
+        f1: "k f1-a\n%include sub/f2.conf\n"
+            + ("" if deep else "\n".join(nest) + "\n") + "k f1-b\n",
+        t1: "k t1\n<st a>\n%include f1.conf\n</st>\nk t1-end\n"
+            if rng.random() < 0.4 else
+            "k t1\n%include f1.conf\nk t1-end\n",
+        t2: rng.choice(["k t2\n%include f1.conf\n",
+                        "%include sub/f2.conf\nk t2\n",
+                        "k t2\n%include f1.conf\n%include sub/f2.conf\n"]),
+    }
+    return {"prop": ID, "kind": "nested-load", "variant": "nested-load",
+            "schema_xml": NEST_SCHEMA, "store": store, "top": t1,
+            "inner_top": rng.choice([t2, t2, t1]),
+            "outer_loader": rng.random() < 0.5}
+
+
+def execute_nested(plan):
+    out = {"evaluations": 0, "digests": [], "fired": {}, "probes": {},
+           "violations": [], "waste": 0, "log": []}
+
+    def violation(clause, detail):
+        out["violations"].append({
+            "sig": "C06|%s|nested-load" % clause,
+            "key": {"clause": clause, "variant": "nested-load"},
+            "detail": detail, "plan": plan})
+
+    with SimWorld(store=plan["store"]) as w:
+        w.begin_op("load-schema")
+        so = ops.schema_outcome(
+            lambda: ops.load_schema_text(plan["schema_xml"], SCHEMA_URL))
+        if not so["ok"]:
+            out["waste"] += 1
+            return out
+        schema = so["schema"]
+        w.store = dict(plan["store"])
+        w.nested_hook = None
+        w.begin_op("inner-alone")
+        n0 = ops.config_outcome(
+            lambda: ZConfig.loadConfig(schema, plan["inner_top"]))
+        w.end_op("ok" if n0["ok"] else n0["cls"])
+        w.begin_op("outer-alone")
+        o0 = ops.config_outcome(
+            lambda: ZConfig.loadConfig(schema, plan["top"]))
+        w.end_op("ok" if o0["ok"] else o0["cls"])
+        inner = []
+
+        def hook(value):
+            w.nested_hook = None          # (one level of nesting)
+            try:
+                inner.append(ops.config_outcome(
+                    lambda: ZConfig.loadConfig(schema, plan["inner_top"])))
+            finally:
+                w.nested_hook = hook
+        w.nested_hook = hook
+        w.begin_op("outer-with-inner")
+        if plan.get("outer_loader"):
+            ld = ZConfig.loader.ConfigLoader(schema)
+            o1 = ops.config_outcome(lambda: ld.loadURL(plan["top"]))
+        else:
+            o1 = ops.config_outcome(
+                lambda: ZConfig.loadConfig(schema, plan["top"]))
+        w.end_op("ok" if o1["ok"] else o1["cls"])
+        w.nested_hook = None
+        out["evaluations"] += 3 + len(inner)
+        out["probes"]["load-started-inside-a-fragment"] = len(inner)
+        if not inner:
+            out["waste"] += 1
+        for n1 in inner:
+            if not ops.same_outcome(n1, n0):
+                violation("nested-load-differs",
+                          "a load of %s started by a datatype while another "
+                          "load was inside a fragment gives %s; on its own "
+                          "it gives %s" % (plan["inner_top"], ops.brief(n1),
+                                           ops.brief(n0)))
+        if not ops.same_outcome(o1, o0):
+            violation("nested-load-differs",
+                      "the load of %s during which another load ran gives "
+                      "%s; on its own it gives %s"
+                      % (plan["top"], ops.brief(o1), ops.brief(o0)))
+        out["digests"].append(hashlib.sha256(json.dumps(
+            [plan["store"], plan["inner_top"]], sort_keys=True).encode()
+        ).hexdigest()[:16])
+    return out
+
+
 def generate(rng, tier, index):
-    if rng.random() < 0.03:
+    r_ = rng.random()
+    if r_ < 0.03:
         p_ = generate_pkg(rng)
         if p_ is not None:
             return p_
+    elif r_ < 0.04:
+        return generate_nested(rng)
     ir, lines = G.gen_pair(rng, {"handlers": False},
                            {"full": rng.choice([0.5, 0.8, 1.0])})
     xml = G.render_schema(ir)
@@ -588,6 +706,8 @@ def _to_real(s, scratch):
 def execute(plan):
     if plan.get("kind") == "pkg-includer":
         return execute_pkg(plan)
+    if plan.get("kind") == "nested-load":
+        return execute_nested(plan)
     out = {"evaluations": 0, "digests": [], "fired": {}, "probes": {},
            "violations": [], "waste": 0, "log": []}
     if not plan.get("realfs"):
